@@ -143,6 +143,9 @@ func Replay(id, path string) error {
 	}
 }
 
+// RegressLate names the properties whose odd shards replay the committed regression cases after the body instead of before.
+var RegressLate = map[string]bool{}
+
 // StuckErr is Replay's verdict on a case whose call is still running (on a goroutine that cannot be stopped).
 type StuckErr struct{ What string }
 
@@ -185,27 +188,37 @@ func Main(t *testing.T, id string, rule string, body func(r *Run)) {
 		}
 	}()
 	// committed minimal reproductions of defects found earlier
-	files, _ := filepath.Glob(filepath.Join(Dir(), "regress", id, "*.json"))
-	sort.Strings(files)
-	for _, f := range files {
-		r.Ev.Regress++
-		if err := Replay(id, f); err != nil {
-			if kf, ok := err.(*KnownErr); ok {
-				r.Known(kf.Finding, kf.What)
-				continue
+	regress := func() {
+		files, _ := filepath.Glob(filepath.Join(Dir(), "regress", id, "*.json"))
+		sort.Strings(files)
+		for _, f := range files {
+			r.Ev.Regress++
+			if err := Replay(id, f); err != nil {
+				if kf, ok := err.(*KnownErr); ok {
+					r.Known(kf.Finding, kf.What)
+					continue
+				}
+				if _, stuck := err.(*StuckErr); stuck {
+					// the stuck call keeps running and may share the fixtures of the checks that follow: the run ends here
+					fmt.Printf("regression %s fails: %v\n", f, err)
+					fmt.Printf("VIOLATION property=%s replay=%s\n", id, f)
+					os.Exit(1)
+				}
+				t.Logf("regression %s fails: %v", f, err)
+				r.mu.Lock()
+				r.violations = append(r.violations, f)
+				r.mu.Unlock()
 			}
-			if _, stuck := err.(*StuckErr); stuck {
-				// the stuck call keeps running and may share the fixtures of the checks that follow: the run ends here
-				fmt.Printf("regression %s fails: %v\n", f, err)
-				fmt.Printf("VIOLATION property=%s replay=%s\n", id, f)
-				os.Exit(1)
-			}
-			t.Logf("regression %s fails: %v", f, err)
-			r.mu.Lock()
-			r.violations = append(r.violations, f)
-			r.mu.Unlock()
 		}
 	}
+	if RegressLate[id] && Shard()%2 == 1 {
+		// (checks of stateless functions: the odd shards make their own calls first, so that no replayed case decides
+		// which function is the first to be called in the process)
+		body(r)
+		regress()
+		return
+	}
+	regress()
 	body(r)
 }
 
